@@ -82,12 +82,24 @@ where
 }
 
 fn do_work<Op: Operator>(mut block: Block<Op>, coord: Coord) {
+    #[cfg(feature = "verif")]
+    crate::verif::emit(
+        || serde_json::json!({"ev": "worker", "at": crate::verif::coord_str(coord), "what": "start"}),
+    );
     let mut catch_panic = CatchPanic::new(|| {
         error!("worker {} crashed!", coord);
+        #[cfg(feature = "verif")]
+        crate::verif::emit(
+            || serde_json::json!({"ev": "worker", "at": crate::verif::coord_str(coord), "what": "crash"}),
+        );
     });
     while !matches!(block.operators.next(), StreamElement::Terminate) {
         // nothing to do
     }
     catch_panic.defuse();
     info!("worker {} completed", coord);
+    #[cfg(feature = "verif")]
+    crate::verif::emit(
+        || serde_json::json!({"ev": "worker", "at": crate::verif::coord_str(coord), "what": "end"}),
+    );
 }
